@@ -37,20 +37,30 @@ Section Visit.
        match l with [] => ret tt | x :: r => V x ;;; vlist r end) l = VL l.
   Proof. induction l as [|x l IH]; simpl; [reflexivity|]. rewrite IH. reflexivity. Qed.
 
-  Ltac eqn := cbn [visit]; rewrite ?vlist_mapM; reflexivity.
+  Lemma vspine_eq m :
+    (fix spine (m : node) : M unit :=
+       match m with
+       | ESub v sl _ _ => V sl ;;; spine v
+       | EAttr v _ _ _ | EStar v _ _ => spine v
+       | ECall f _ _ _ => spine f
+       | _ => ret tt
+       end) m = spine_with V m.
+  Proof. induction m; cbn [spine_with]; try reflexivity; try assumption. rewrite IHm1. reflexivity. Qed.
+
+  Ltac eqn := cbn [visit]; rewrite ?vlist_mapM, ?vspine_eq; reflexivity.
 
   (* ---- unfolding equations: one per node class ---- *)
   Lemma visit_name id c p :
     V (EName id c p) = (bf <- get_and_verify_name (EName id c p) c ;; update_results (snd bf, fst bf) c).
   Proof. reflexivity. Qed.
-  Lemma visit_attr v a c p : V (EAttr v a c p) = compound_body (EAttr v a c p) v c (V v).
-  Proof. reflexivity. Qed.
-  Lemma visit_sub v sl c p : V (ESub v sl c p) = compound_body (ESub v sl c p) v c (V v).
-  Proof. reflexivity. Qed.
-  Lemma visit_star v c p : V (EStar v c p) = compound_body (EStar v c p) v c (V v).
-  Proof. reflexivity. Qed.
+  Lemma visit_attr v a c p : V (EAttr v a c p) = compound_body (EAttr v a c p) v c (V v) (spine_with V v).
+  Proof. cbn [visit]. rewrite vspine_eq. reflexivity. Qed.
+  Lemma visit_sub v sl c p : V (ESub v sl c p) = compound_body (ESub v sl c p) v c (V v) (V sl ;;; spine_with V v).
+  Proof. cbn [visit]. rewrite vspine_eq. reflexivity. Qed.
+  Lemma visit_star v c p : V (EStar v c p) = compound_body (EStar v c p) v c (V v) (spine_with V v).
+  Proof. cbn [visit]. rewrite vspine_eq. reflexivity. Qed.
   Lemma visit_call f args kws p :
-    V (ECall f args kws p) = call_body mexists modulename (ECall f args kws p) args kws (VL args ;;; VL kws).
+    V (ECall f args kws p) = call_body mexists modulename (ECall f args kws p) args kws (VL args ;;; VL kws ;;; spine_with V f).
   Proof. eqn. Qed.
   Lemma visit_kw a v : V (EKw a v) = V v. Proof. reflexivity. Qed.
   Lemma visit_const sv : V (EConst sv) = ret tt. Proof. reflexivity. Qed.
@@ -149,10 +159,11 @@ Section Visit.
   Proof. cbn [retval]. rewrite <- !vlist_mapM. reflexivity. Qed.
 
   (* ---- monotonicity of the bodies ---- *)
-  Lemma mono_compound_body n v c m : mono m -> mono (compound_body n v c m).
+  Lemma mono_compound_body n v c m m2 : mono m -> mono m2 -> mono (compound_body n v c m m2).
   Proof.
-    intros Hm. unfold compound_body. apply mono_bind; [apply mono_get_and_verify|]. intros.
-    apply mono_bind; [destruct (is_nameable v); [apply mono_ret|exact Hm]|]. intros. apply mono_update_results.
+    intros Hm Hm2. unfold compound_body. apply mono_bind; [apply mono_get_and_verify|]. intros.
+    apply mono_bind; [destruct (is_nameable v); [apply mono_ret|exact Hm]|]. intros.
+    apply mono_bind; [exact Hm2|]. intros. apply mono_update_results.
   Qed.
 
   Lemma mono_call_body n args kws m : mono m -> mono (call_body mexists modulename n args kws m).
@@ -239,17 +250,29 @@ Section Visit.
     apply Forall_app in H'. exact H'.
   Qed.
 
+  Lemma mono_spine : forall m, All MonoVR m -> mono (spine_with V m).
+  Proof.
+    induction m; intros Hm; cbn [spine_with]; try apply mono_ret;
+      pose proof (all_children _ _ Hm) as Hk; simpl in Hk.
+    - apply IHm. exact (Forall_inv Hk).
+    - apply mono_bind; [exact (proj1 (all_here _ _ (Forall_inv (Forall_inv_tail Hk))))|]. intros. apply IHm1. exact (Forall_inv Hk).
+    - apply IHm. exact (Forall_inv Hk).
+    - apply IHm. exact (Forall_inv Hk).
+  Qed.
+
   Theorem visit_retval_mono : forall n, All MonoVR n.
   Proof.
     apply all_ind_step. intros n IH. split.
     - (* visit *)
       destruct n as [id c p|v a c p|v sl c p|v c p|f args kws p|arg v|sv|k es p|ks vs| |ps dflts body p|tgt val p|k elts gens p|tgt it ifs|tgts val p|tgt ann val p|tgt val p|tgts p|tgt it body orelse p|items body p|ctxe vars|val p|name ps outer body p|name cs p|kind p|kind binds cs].
       + rewrite visit_name. apply mono_bind; [apply mono_get_and_verify|intros; apply mono_update_results].
-      + rewrite visit_attr. apply mono_compound_body. split_children IH. apply (all_here _ _ Hc).
-      + rewrite visit_sub. apply mono_compound_body. split_children IH. apply (all_here _ _ Hc).
-      + rewrite visit_star. apply mono_compound_body. split_children IH. apply (all_here _ _ Hc).
+      + rewrite visit_attr. split_children IH. apply mono_compound_body; [apply (all_here _ _ Hc) | apply mono_spine; exact Hc].
+      + rewrite visit_sub. split_children IH. apply mono_compound_body; [apply (all_here _ _ Hc)|].
+        apply mono_bind; [apply (all_here _ _ Hc0) | intros; apply mono_spine; exact Hc].
+      + rewrite visit_star. split_children IH. apply mono_compound_body; [apply (all_here _ _ Hc) | apply mono_spine; exact Hc].
       + rewrite visit_call. apply mono_call_body. split_children IH.
-        apply mono_bind; [apply mono_VL; assumption|intros; apply mono_VL; assumption].
+        apply mono_bind; [apply mono_VL; assumption|]. intros. apply mono_bind; [apply mono_VL; assumption|]. intros.
+        apply mono_spine; exact Hc.
       + rewrite visit_kw. split_children IH. apply (all_here _ _ Hc).
       + rewrite visit_const. apply mono_ret.
       + rewrite visit_seq. apply mono_VL. exact IH.
